@@ -14,6 +14,7 @@ inductive Err where
   | code (n : Int)              -- a user error, identified by a number
   | optionEmpty                 -- fp.ErrOptionEmpty
   | tryNotFailed                -- fp.ErrTryNotFailed
+  | futureNotFailed             -- fp.ErrFutureNotFailed
   | notInit                     -- "Try not initialized correctly"
   | panicErr (p : String)       -- try.panicError exposing the panic value
   | leftVal (s : String)        -- an Either-left rendered as text (either -> try bridges)
@@ -24,6 +25,7 @@ def Err.toStr : Err → String
   | .code n => s!"e{n}"
   | .optionEmpty => "ErrOptionEmpty"
   | .tryNotFailed => "ErrTryNotFailed"
+  | .futureNotFailed => "ErrFutureNotFailed"
   | .notInit => "ErrNotInit"
   | .panicErr p => s!"panicErr({p})"
   | .leftVal s => s!"left({s})"
